@@ -352,6 +352,11 @@ def main(ctx):
     blocks = ['msg', 'msg', 'meta', 'track', 'file', 'neg', 'neg', 'stream', 'arbitrary']
     ctx.pmap('hyp_shard', [(b, i, n) for i, b in enumerate(blocks)] +
              ([(b, 50 + i, n) for i, b in enumerate(blocks)] if ctx.tier == 'thorough' else []))
+    if ctx.tier == 'thorough':
+        from lib.harness import run_fuzz
+        seeds = [b'note_on channel=1 note=60 velocity=64 time=0', b'sysex data=(1,2,3) time=0.5',
+                 b'pitchwheel channel=0 pitch=-8192 time=1e3', b'songpos pos=16383', b'clock']
+        run_fuzz(ctx, 'C14', 600000, seeds, max_len=80, tokens=[t for t in TOKENS if t.strip()])
     # fixed shapes named in the statement
     for t in R.ALL_TYPES:
         ctx.check({'kind': 'msg', 'msg': R.default_msg(t) if t != 'sysex' else {'type': 'sysex', 'data': [], 'time': 0}})
